@@ -39,6 +39,8 @@ func checkC08(c *Ctx, r *Report) {
 	c08StringCap(c, r, "C08.R3.string-cap")
 	packMapThreaded(c, r, "C08.R2.pack-map", "Len() under-counts the message and Pack fails for lack of room")
 	bitmapLengthAgreement(c, r, "C08.R1.bitmap-length", "Len() is short for NSEC / NSEC3 / CSYNC records whose highest type in a window is divisible by 8, and Pack fails for lack of room")
+	r.rule("C08.R2.len-search-walk", 1, "compressionLenSearch visits the labels through NextLabel (escaped dots do not start labels)")
+	walkThroughNextLabel(c, r, "C08.R2.len-search-walk", "compressionLenSearch", "the length walk registers and finds suffixes at escaped dots that the packer never compresses against: Len() comes out too small")
 }
 
 func c08Header(c *Ctx, r *Report) {
